@@ -161,11 +161,13 @@ def impl_oracle(c):
         return ("crash", "HelloInfo/Read crashed: %s" % o["crash"][:200])
     if o.get("pulled", 0) > 5 + 65535:
         return ("unbounded-read", "HelloInfo pulled %d bytes from the connection" % o["pulled"])
+    where = "handover:" if c["stream"] == "handover" else ""
+    note = (" [" + c.get("desc", "") + "; chunks returned: %s]" % (o.get("chunks") or [])[:12]) if where else ""
     if not o.get("readback_ok"):
-        return ("readback", "bytes read after HelloInfo differ from the stream sent")
+        return (where + "readback", "bytes read after HelloInfo differ from the stream sent" + note)
     if c.get("to_eof") and (o.get("read_total") != c["len"] or o.get("ended") != "eof"):
-        return ("readback-incomplete", "reads after HelloInfo returned %d of %d bytes (ended %r)"
-                % (o.get("read_total", 0), c["len"], o.get("ended")))
+        return (where + "readback-incomplete", "reads after HelloInfo returned %d of %d bytes (ended %r)%s"
+                % (o.get("read_total", 0), c["len"], o.get("ended"), note))
     w = c.get("want")
     if w is not None and 0 <= c.get("reclen", -1) <= RECORD_LIMIT:
         if o.get("kind") != "ok":
@@ -193,7 +195,7 @@ def run(ck):
         resource.setrlimit(resource.RLIMIT_STACK, (resource.RLIM_INFINITY, resource.RLIM_INFINITY))
     except Exception:
         pass
-    ncases = 600 if not ck.thorough else 12000
+    ncases = 740 if not ck.thorough else 13500
     ck.gen()
     built = ck.coq_make(MODEL + PROOFS, clean=ck.thorough)
     ck.obligations = ck.count_statements(STATEMENT_FILES)
